@@ -31,6 +31,26 @@ FORBIDDEN = re.compile(
 )
 
 
+
+def _drop_stale_build_products():
+    """Remove build products of modules whose source file no longer exists (a module that was renamed
+    or removed leaves its .olean behind; leanchecker replays every .olean below the prefix it is given
+    and then fails on the stale one although the current sources build and check)."""
+    lib = LEAN / ".lake" / "build" / "lib" / "lean" / "GridVerif"
+    ir = LEAN / ".lake" / "build" / "ir" / "GridVerif"
+    if not lib.is_dir():
+        return
+    for ol in lib.rglob("*.olean"):
+        rel = ol.relative_to(lib).with_suffix(".lean")
+        if not (LEAN / "GridVerif" / rel).exists():
+            stem = ol.name[: -len(".olean")]
+            for d in (ol.parent, ir / rel.parent):
+                if d.is_dir():
+                    for f in d.glob(stem + ".*"):
+                        if f.is_file() and f.name.split(".")[0] == stem:
+                            f.unlink()
+
+
 def _strip_comments(text: str) -> str:
     # remove nested /- -/ blocks and -- line comments
     out, depth, i = [], 0, 0
@@ -150,6 +170,7 @@ def lean_build_and_audit(pid: str, modules: list[str], theorems: list[str], thor
         rc, out = run(["lake", "env", "lean", str(audit.relative_to(LEAN))], cwd=LEAN)
         res["log"] += out[-3000:]
         if thorough:
+            _drop_stale_build_products()
             rc2, out2 = run(["lake", "env", "leanchecker"] + modules, cwd=LEAN, timeout=3600)
             res["leanchecker"] = "ok" if rc2 == 0 else out2[-1500:]
             if rc2 != 0:
